@@ -956,6 +956,389 @@ func multiClass(run *lib.Run, seed uint64, n int, thorough bool, only string, re
 	}
 }
 
+// ---- wide keys: every key length 1..80, every byte class ----
+
+// first characters by class: ASCII control, punctuation, DEL, 2-, 3- and 4-byte UTF-8 (U+FFFF, an
+// emoji, CJK extension B), invalid UTF-8 bytes, 0xF0.., 0xFF.  No NUL (refused) and no '/' (path separator).
+var wideHeads = [][]byte{
+	{0x01}, {0x1f}, []byte("!"), []byte("\""), []byte("%"), []byte("+"), []byte("?"), []byte("#"), []byte("\\"), []byte("~"),
+	{0x7f}, []byte("\u00e9"), []byte("\u20ac"), []byte("\uffff"), []byte("\U0001F600"), []byte("\U00020000"),
+	{0x80}, {0xbf}, {0xc3}, {0xf0}, {0xf8}, {0xff}, []byte("a"), []byte("Z"), []byte("0"), []byte(" "),
+}
+
+func wideKeys(rng *lib.Rand) []string {
+	var ks []string
+	for L := 1; L <= 80; L++ {
+		h := wideHeads[(L*7+rng.Intn(3))%len(wideHeads)]
+		if len(h) > L {
+			h = wideHeads[(L+rng.Intn(11))%11] // a one-byte head
+			if L == 1 && (h[0] == '.' || h[0] == '%') {
+				h = []byte("~")
+			}
+		}
+		b := append([]byte{}, h...)
+		for len(b) < L {
+			switch x := rng.Intn(12); {
+			case x == 0 && len(b)+2 <= L:
+				b = append(b, 0xc3, 0xa9)
+			case x == 1:
+				b = append(b, byte(0x80+rng.Intn(0x40))) // a stray continuation byte
+			case x == 2:
+				b = append(b, " !$&'()*+,;=:@[]^_`{|}~-"[rng.Intn(24)])
+			default:
+				b = append(b, "abcdefghijklmnopqrstuvwxyz0123456789"[rng.Intn(36)])
+			}
+		}
+		ks = append(ks, string(b))
+	}
+	return ks
+}
+
+// how encoding/json renders a key name in a listing (invalid UTF-8 becomes U+FFFD)
+func rendered(k string) string {
+	b, _ := json.Marshal(k)
+	var s string
+	json.Unmarshal(b, &s)
+	return s
+}
+
+func wideSection(run *lib.Run, seed uint64, n int, only int) {
+	rng := lib.NewRand(seed)
+	h, err := kvhist.New(rng, fmt.Sprintf("wd%d", n))
+	if err != nil {
+		panic(err)
+	}
+	w := &world{h: h, special: "wide"}
+	d, err := datastore.GetDataByUUIDName(dvid.UUID(h.Root), dvid.InstanceName(h.Inst))
+	if err != nil {
+		panic(err)
+	}
+	w.data = d
+	w.inst = uint32(d.InstanceID())
+	if w.db, err = datastore.GetOrderedKeyValueDB(d); err != nil {
+		panic(err)
+	}
+	w.universe = wideKeys(rng)
+	back := map[string]string{}
+	for _, k := range w.universe {
+		r := rendered(k)
+		if _, dup := back[r]; dup {
+			panic("two keys render alike: " + r)
+		}
+		back[r] = k
+	}
+	unrender := func(l []string) []string {
+		out := make([]string, len(l))
+		for i, name := range l {
+			if k, ok := back[name]; ok {
+				out[i] = k
+			} else {
+				out[i] = name
+			}
+		}
+		return out
+	}
+	ctr := 0
+	post := func(v int, k string) {
+		ctr++
+		if r := dv.Post(w.url(v, "key/"+url.PathEscape(k)), []byte{byte('a' + ctr%26), byte('0' + ctr%10)}); r.Status != 200 {
+			run.Count(fmt.Sprintf("wide:post-refused:%d", r.Status))
+		}
+	}
+	for _, k := range w.universe {
+		if rng.Chance(0.9) {
+			post(1, k)
+		}
+	}
+	h.Commit(1)
+	h.Child("newversion", []int{1})
+	for _, k := range w.universe {
+		switch x := rng.Intn(10); {
+		case x == 0:
+			dv.Delete(w.url(2, "key/"+url.PathEscape(k)))
+		case x <= 2:
+			post(2, k)
+		}
+	}
+	sorted := append([]string{}, w.universe...)
+	sort.Strings(sorted) // byte order
+	for v := 1; v <= 2; v++ {
+		if only != 0 && only != v {
+			continue
+		}
+		bd := lib.NewBinder()
+		entries := w.dump()
+		table := w.table(bd, v, entries)
+		if v == 1 {
+			// the first version is judged by the oracle only (no dump: keeps the cases file small)
+			entries, table = nil, "[]"
+		}
+		ctx := w.ctx(v)
+		var pts []string
+		for _, k := range w.universe {
+			g := dv.Get(w.url(v, "key/"+url.PathEscape(k)))
+			hg := "Err"
+			switch {
+			case g.Class() == "panic":
+				hg = "Panic"
+			case g.Status == 200:
+				hg = "(Ok (Some " + bd.Bytes(g.Body) + "))"
+			case g.Status == 404:
+				hg = "(Ok None)"
+			}
+			pts = append(pts, fmt.Sprintf("(%s, %s, %s)", bd.Bytes([]byte(k)), strings.Replace(w.dbGet(v, tkeyOf(k)), "(Ok (Some ", "(Ok (Some ", 1), hg))
+		}
+		cls, all := httpList(dv.Get(w.url(v, "keys")))
+		byteItems := func(l []string) []string {
+			ss := make([]string, len(l))
+			for i, x := range l {
+				ss[i] = bd.Bytes([]byte(x))
+			}
+			return ss
+		}
+		allKeys := resList(cls, byteItems(unrender(all)))
+		var qs []string
+		if v == 2 {
+			type iv struct{ lo, hi string }
+			var ivs []iv
+			for j := 0; j+1 < len(sorted); j++ {
+				ivs = append(ivs, iv{sorted[j], sorted[j+1]}) // every key once as lower, once as upper bound
+			}
+			for _, k := range sorted {
+				ivs = append(ivs, iv{k, k})
+			}
+			for _, q := range ivs {
+				ta, tb := tkeyOf(q.lo), tkeyOf(q.hi)
+				rcls, rItems := "ok", []string(nil)
+				if pan, _ := lib.Recover(func() {
+					l, err := w.db.GetRange(ctx, ta, tb)
+					if err != nil {
+						rcls = "err"
+						return
+					}
+					rItems = tkvItems(bd, l)
+				}); pan {
+					rcls = "panic"
+				}
+				kcls, kItems := "ok", []string(nil)
+				if pan, _ := lib.Recover(func() {
+					l, err := w.db.KeysInRange(ctx, ta, tb)
+					if err != nil {
+						kcls = "err"
+						return
+					}
+					for _, tk := range l {
+						kItems = append(kItems, bd.Bytes(tk))
+					}
+				}); pan {
+					kcls = "panic"
+				}
+				hcls, hl := httpList(dv.Get(w.url(v, "keyrange/"+url.PathEscape(q.lo)+"/"+url.PathEscape(q.hi))))
+				qs = append(qs, fmt.Sprintf("{| w_lo := %s; w_hi := %s; w_range := %s; w_keys := %s; w_http := %s |}",
+					bd.Bytes([]byte(q.lo)), bd.Bytes([]byte(q.hi)), resList(rcls, rItems), resList(kcls, kItems), resList(hcls, byteItems(unrender(hl)))))
+			}
+			run.Count(fmt.Sprintf("wide:intervals:%d", len(ivs)))
+		}
+		term := bd.Wrap(fmt.Sprintf("CWide %d %d\n   %s\n   %s\n   [%s]\n   %s\n   [%s]", w.inst, w.verID(v), coqStore(bd, entries), table,
+			strings.Join(pts, "; "), allKeys, strings.Join(qs, ";\n    ")))
+		run.Count("wide:key-lengths-1-to-80")
+		run.Add("wide", term, jcase{Kind: "wide", Seed: seed, Version: v}, fmt.Sprintf("wide/%d/%d", seed, v))
+	}
+}
+
+// ---- ranges holding a number of keys at an internal batch threshold ----
+
+func localConst(name string) int {
+	b, err := os.ReadFile("../coq/Gen/LocalConsts.v")
+	if err != nil {
+		fmt.Fprintln(os.Stderr, "cannot read the generated constants:", err)
+		os.Exit(2)
+	}
+	i := strings.Index(string(b), "Definition "+name+" : N := ")
+	if i < 0 {
+		fmt.Fprintln(os.Stderr, "generated constant missing:", name)
+		os.Exit(2)
+	}
+	var v int
+	fmt.Sscanf(string(b)[i+len("Definition "+name+" : N := "):], "%d", &v)
+	return v
+}
+
+func be32(x int) []byte { return []byte{byte(x >> 24), byte(x >> 16), byte(x >> 8), byte(x)} }
+
+var batchRepo *kvhist.Hist
+
+// batchCase: what = 0 DeleteRange, 1 GetRange, 2 KeysInRange, 3 ProcessRange, 4 PutRange, 5 DeleteAll
+func batchCase(run *lib.Run, what, count int) {
+	rng := lib.NewRand(uint64(what*1000003 + count))
+	if batchRepo == nil {
+		h, err := kvhist.New(rng, "bt")
+		if err != nil {
+			panic(err)
+		}
+		batchRepo = h
+	}
+	root := batchRepo.Root
+	threshold := localConst("n_badger_DeleteRange_BATCH_SIZE")
+	if what == 5 {
+		threshold = localConst("n_badger_DeleteAll_BATCH_SIZE")
+	}
+	mk := func(name string) (datastore.DataService, storage.OrderedKeyValueDB) {
+		if err := dv.NewInstance(root, "keyvalue", name, nil); err != nil {
+			panic(err)
+		}
+		d, err := datastore.GetDataByUUIDName(dvid.UUID(root), dvid.InstanceName(name))
+		if err != nil {
+			panic(err)
+		}
+		db, err := datastore.GetOrderedKeyValueDB(d)
+		if err != nil {
+			panic(err)
+		}
+		return d, db
+	}
+	ver, _ := datastore.VersionFromUUID(dvid.UUID(root))
+	sfx := fmt.Sprintf("%d_%d", what, count)
+	dPrev, dbPrev := mk("bp" + sfx)
+	d, db := mk("bt" + sfx)
+	dNext, dbNext := mk("bn" + sfx)
+	ctx := datastore.NewVersionedCtx(d, ver)
+	tk := func(i int) storage.TKey { return storage.NewTKey(100, be32(i)) }
+	tkvs := make([]storage.TKeyValue, count)
+	for i := range tkvs {
+		tkvs[i] = storage.TKeyValue{K: tk(i), V: []byte{byte(i), 1}}
+	}
+	outside := []struct {
+		db  storage.OrderedKeyValueDB
+		ctx *datastore.VersionedCtx
+		tk  storage.TKey
+	}{
+		{db, ctx, storage.NewTKey(99, be32(7))}, {db, ctx, storage.NewTKey(101, be32(0))}, {db, ctx, tk(count)},
+		{dbPrev, datastore.NewVersionedCtx(dPrev, ver), tk(0)}, {dbNext, datastore.NewVersionedCtx(dNext, ver), tk(0)},
+	}
+	ok := true
+	chk := func(err error) {
+		if err != nil {
+			ok = false
+		}
+	}
+	if pan, _ := lib.Recover(func() {
+		chk(db.PutRange(ctx, tkvs))
+		for _, o := range outside {
+			chk(o.db.Put(o.ctx, o.tk, []byte{9}))
+		}
+	}); pan {
+		ok = false
+	}
+	readable := func() int {
+		n := 0
+		for i := 0; i < count; i++ {
+			if b, err := db.Get(ctx, tk(i)); err == nil && b != nil {
+				n++
+			}
+		}
+		return n
+	}
+	outsideN := func() int {
+		n := 0
+		for _, o := range outside {
+			if what == 5 && o.db == db {
+				continue // DeleteAll removes the whole instance
+			}
+			if b, err := o.db.Get(o.ctx, o.tk); err == nil && b != nil {
+				n++
+			}
+		}
+		return n
+	}
+	ob := outsideN()
+	found := 0
+	lo, hi := tk(0), tk(count-1)
+	inOrder := func(keys []storage.TKey) int {
+		n := 0
+		for i, k := range keys {
+			if i < count && bytes.Equal(k, tk(i)) {
+				n++
+			}
+		}
+		if len(keys) != count {
+			return -len(keys) - 1 + n*0
+		}
+		return n
+	}
+	if pan, _ := lib.Recover(func() {
+		switch what {
+		case 0:
+			chk(db.DeleteRange(ctx, lo, hi))
+			found = readable()
+		case 1:
+			l, err := db.GetRange(ctx, lo, hi)
+			chk(err)
+			ks := make([]storage.TKey, len(l))
+			for i, e := range l {
+				ks[i] = e.K
+			}
+			found = inOrder(ks)
+		case 2:
+			l, err := db.KeysInRange(ctx, lo, hi)
+			chk(err)
+			found = inOrder(l)
+		case 3:
+			var ks []storage.TKey
+			chk(db.ProcessRange(ctx, lo, hi, &storage.ChunkOp{}, func(c *storage.Chunk) error {
+				ks = append(ks, c.K)
+				return nil
+			}))
+			found = inOrder(ks)
+		case 4:
+			found = readable()
+		case 5:
+			chk(db.DeleteAll(ctx))
+			l, err := db.KeysInRange(ctx, storage.MinTKey(storage.TKeyMinClass), storage.MaxTKey(storage.TKeyMaxClass))
+			chk(err)
+			found = len(l)
+		}
+	}); pan {
+		ok = false
+	}
+	if found < 0 {
+		found = 0
+	}
+	oa := outsideN()
+	// make room: the instances are not needed any more
+	for _, x := range []struct {
+		db storage.OrderedKeyValueDB
+		d  datastore.DataService
+	}{{dbPrev, dPrev}, {db, d}, {dbNext, dNext}} {
+		x.db.DeleteAll(datastore.NewVersionedCtx(x.d, ver))
+	}
+	names := []string{"DeleteRange", "GetRange", "KeysInRange", "ProcessRange", "PutRange", "DeleteAll"}
+	term := fmt.Sprintf("(CBatch %d%%nat %d %d %d %d %d %s)", what, threshold, count, found, ob, oa, lib.CoqBool(ok))
+	run.Count(fmt.Sprintf("batch:%s:threshold-%d", names[what], threshold))
+	run.Add("batch", term, jcase{Kind: "batch", N: what, Seed: uint64(count)}, fmt.Sprintf("batch/%d/%d", what, count))
+}
+
+func batchSection(run *lib.Run, thorough bool) {
+	t := localConst("n_badger_DeleteRange_BATCH_SIZE")
+	for _, c := range []int{t - 1, t, t + 1, 2 * t, 2*t + 1} {
+		batchCase(run, 4, c)
+		batchCase(run, 0, c)
+		if thorough || c == t || c == 2*t {
+			batchCase(run, 1, c)
+			batchCase(run, 2, c)
+			batchCase(run, 3, c)
+		}
+	}
+	t = localConst("n_badger_DeleteAll_BATCH_SIZE")
+	cs := []int{t - 1, t, t + 1}
+	if thorough {
+		cs = append(cs, 2*t, 2*t+1)
+	}
+	for _, c := range cs {
+		batchCase(run, 5, c)
+	}
+}
+
 // build one random branched history; special adds the empty-value shape
 func build(seed uint64, n int, special string) *world {
 	rng := lib.NewRand(seed)
@@ -1052,7 +1435,7 @@ func main() {
 			if onlyDelete || (onlyVersion != 0 && onlyVersion != v) {
 				continue
 			}
-			if !o.Thorough() && onlyVersion == 0 && nv > 4 && v != 1 && v != nv && sub.Chance(0.4) {
+			if !o.Thorough() && onlyVersion == 0 && nv > 4 && v != 1 && v != nv && sub.Chance(0.55) {
 				run.Count("version:skipped-for-size")
 				continue
 			}
@@ -1074,7 +1457,11 @@ func main() {
 			fmt.Fprintln(os.Stderr, err)
 			os.Exit(2)
 		}
-		if c.Kind == "multiclass" || c.Kind == "received" {
+		if c.Kind == "wide" {
+			wideSection(run, c.Seed, 1, c.Version)
+		} else if c.Kind == "batch" {
+			batchCase(run, c.N, int(c.Seed))
+		} else if c.Kind == "multiclass" || c.Kind == "received" {
 			multiClass(run, c.Seed, 1, o.Thorough(), c.Special, c.Kind == "received")
 		} else {
 			doHistory(c.Seed, c.Special, c.Version, c.Kind == "deleterange", c.N)
@@ -1110,12 +1497,14 @@ func main() {
 	for n := 0; n < nM; n++ {
 		multiClass(run, rng.U64(), n+1, o.Thorough(), "", false)
 	}
+	wideSection(run, rng.U64(), 1, 0)
+	batchSection(run, o.Thorough())
 	// last: a restart replaces the store objects of the earlier sections
 	for n := 0; n < nM; n++ {
 		multiClass(run, rng.U64(), n+1, o.Thorough(), "", true)
 	}
 	run.Finish("c05case",
-		"storage-API sections: a repo taken through the receiving end of a push (version ids not in creation order: ancestors with larger ids than descendants), data written at every version, and a locally created one; an instance with TKeys in five classes written by db.Put/db.Delete over a branched DAG, per version GetRange, KeysInRange, ProcessRange, SendKeysInRange for intervals inside one class, across classes and over MinTKey(0)..MaxTKey(255), and DeleteRange across classes and over the whole space; random branched histories (puts, deletes, batch writes, commits, branches, merges; 12 numbered keys plus prefix/extension/neighbour keys; every third history with empty values); per version: db.Get and GET key/k of every key, keys, keyvalues, and intervals with ends drawn from existing keys, their prefixes, extensions and neighbours, the whole space, single keys and empty intervals, through GetRange, KeysInRange, keyrange, keyrangevalues json/tar; one DeleteRange per history; distinct by (history seed, version)",
+		"keyvalue keys of every length 1..80 and every byte class (control, punctuation, DEL, 2/3/4-byte UTF-8, invalid UTF-8, leading 0xF0/0xFF) with every stored key once as lower and once as upper bound and as [k,k]; ranges holding exactly N-1, N, N+1, 2N, 2N+1 keys for the batch sizes N of badger DeleteRange / DeleteAll read from the source; storage-API sections: a repo taken through the receiving end of a push (version ids not in creation order: ancestors with larger ids than descendants), data written at every version, and a locally created one; an instance with TKeys in five classes written by db.Put/db.Delete over a branched DAG, per version GetRange, KeysInRange, ProcessRange, SendKeysInRange for intervals inside one class, across classes and over MinTKey(0)..MaxTKey(255), and DeleteRange across classes and over the whole space; random branched histories (puts, deletes, batch writes, commits, branches, merges; 12 numbered keys plus prefix/extension/neighbour keys; every third history with empty values); per version: db.Get and GET key/k of every key, keys, keyvalues, and intervals with ends drawn from existing keys, their prefixes, extensions and neighbours, the whole space, single keys and empty intervals, through GetRange, KeysInRange, keyrange, keyrangevalues json/tar; one DeleteRange per history; distinct by (history seed, version)",
 		tail)
 }
 
